@@ -21,7 +21,7 @@ func init() {
 	run.Register(&run.Property{
 		ID:    "C04",
 		Title: "WKB encoding is lossless and decoding is its exact inverse",
-		Rule: "cases = arbitrary (not necessarily valid) homogeneous geometry trees over 7 types x 4 coordinate types, empty members at every position (empty Point inside MultiPoint/collections, typed empties), nesting <= 4, ordinates from all float64 classes incl. NaN/Inf in Z and M, plus valid lattice geometries for the Scan/Value adapters; each case checks library bytes against an independent writer, decodes under every per-element byte-order assignment (all 2^k for k<=6, 24 sampled beyond), trailing bytes, AppendWKB prefixes, Value/Scan into every Go type. " +
+		Rule: "[added in rounds 9-11: counts64k: points/members/ring vertices at 65535..70001 in every byte-order assignment; closing points equal under == but not bitwise] cases = arbitrary (not necessarily valid) homogeneous geometry trees over 7 types x 4 coordinate types, empty members at every position (empty Point inside MultiPoint/collections, typed empties), nesting <= 4, ordinates from all float64 classes incl. NaN/Inf in Z and M, plus valid lattice geometries for the Scan/Value adapters; each case checks library bytes against an independent writer, decodes under every per-element byte-order assignment (all 2^k for k<=6, 24 sampled beyond), trailing bytes, AppendWKB prefixes, Value/Scan into every Go type. " +
 			"non-trivial = tree with >= 2 nodes, a non-XY coordinate type or an empty member; distinct by canonical WKB",
 		Assumptions:      []string{"bitwise comparison of trees (NaN by bit pattern); the independent WKB codec in verif/codec is written from the ISO WKB layout", "Scan validates, so Scan round trips are only demanded for geometries the exact oracle accepts as valid"},
 		MinNontrivial:    500,
